@@ -51,6 +51,9 @@ def skipNl : Toks → Toks
   | .op s :: t => if s == "\n" then skipNl t else .op s :: t
   | ts => ts
 
+/-- redirection operators that take a word (here-documents included; the body is not a token) -/
+def isRedirOrHere (s : String) : Bool := isRedirOp s || isHereOp s
+
 def isCaseCont (s : String) : Bool := s == ";;" || s == ";&" || s == ";;&" || s == ";|"
 
 /-- `TokenId::is_clause_delimiter` (end of input counts). -/
@@ -63,14 +66,14 @@ def isClauseDelim : Toks → Bool
 
 /-- `Parser::redirections` -/
 def gRedirs : Toks → Option Toks
-  | .io :: .op s :: o :: t => if isRedirOp s && isOperand o then gRedirs t else none
+  | .io :: .op s :: o :: t => if isRedirOrHere s && isOperand o then gRedirs t else none
   | .io :: _ => none
   | .op s :: t =>
-    if isRedirOp s then
+    if isRedirOrHere s then
       match t with
       | o :: t' => if isOperand o then gRedirs t' else none
       | [] => none
-    else if s == "<(" || s == ">(" || s == "<<" || s == "<<-" then none
+    else if s == "<(" || s == ">(" then none
     else some (.op s :: t)
   | ts => some ts
 
@@ -86,14 +89,14 @@ def gSimple : Bool → Bool → Nat → Toks → Option ((Bool × Nat) × Toks)
   | false, ar, w, [] => some ((ar, w), [])
   | false, _, w, .io :: t =>
     match t with
-    | .op s :: o :: t' => if isRedirOp s && isOperand o then gSimple false true w t' else none
+    | .op s :: o :: t' => if isRedirOrHere s && isOperand o then gSimple false true w t' else none
     | _ => none
   | false, ar, w, .op s :: t =>
-    if isRedirOp s then
+    if isRedirOrHere s then
       match t with
       | o :: t' => if isOperand o then gSimple false true w t' else none
       | [] => none
-    else if s == "<(" || s == ">(" || s == "<<" || s == "<<-" then none
+    else if s == "<(" || s == ">(" then none
     else some ((ar, w), .op s :: t)
   | false, ar, w, .word lit asg :: t =>
     if !ar && w == 0 && isKeyword lit then some ((ar, w), .word lit asg :: t)
